@@ -831,6 +831,9 @@ class Rewriter:
             if op == 'src_rm':
                 nodes = self.interpreter.dataflow_dag.reachable(set(target.source_nodes), True).union({target.node})
             elif op == 'extra_files_rm':
+                if target.extra_files is None:
+                    # the target has no extra_files keyword: nothing to search
+                    return None, None
                 nodes = self.interpreter.dataflow_dag.reachable({target.extra_files}, True)
             for i in nodes:
                 if isinstance(i, UnknownValue):
